@@ -349,52 +349,52 @@ class Contract:
         return out
 
     def verify_yields(self, eng, c0, a, all_bags, obls):
-        """Generator result against the membership predicate: sound, complete, no repeats."""
-        # soundness: every yielded value is a member
+        """Generator result against the membership predicate: sound (<= MAY), complete (>= MUST), no repeats.
+        Auxiliary constants of a bag (callee results) are free, constrained by the bag's definitions."""
         k = 0
         for (s, lc, bags) in all_bags:
             for b in bags:
-                news, cond, elem = b.instantiate("ys")
+                news, cond, elem, defs = b.instantiate("ys")
                 v = to_val(elem)
                 m = self.yields(c0, a, v)
-                # bag conds produced by yield statements already include the local path condition up to
-                # the yield; the path's later conditions are in s.pc as well (harmless: same path).
-                obls.append(Obligation("yields.sound/site%d" % k, s.assumptions() + [cond], m,
+                obls.append(Obligation("yields.sound/site%d" % k, s.assumptions() + [defs, cond], m,
                                        info={"site": b.tag, "path": s.trace}))
                 k += 1
-        # completeness: every member is yielded by some site on the path that applies
         v = fresh("m", Val)
         mem = self.yields_must(c0, a, v)
         if mem is None:
             mem = self.yields(c0, a, v)
         hints = self.witness(c0, a, v)
-        base = None
-        disj = []
-        for (s, lc, bags) in all_bags:
+        for i, (s, lc, bags) in enumerate(all_bags):
             alts = []
+            defs_all = []
             for b in bags:
-                ev = to_val(b.elem)
+                news, cond, elem, defs = b.instantiate("yc")     # aux renamed apart, binders to be substituted
+                ev = to_val(elem)
                 key = b.tag
-                if key in hints or any(key.startswith(h) for h in hints):
-                    hv = hints.get(key)
-                    if hv is None:
-                        hv = [hints[h] for h in hints if key.startswith(h)][0]
-                    sub = list(zip(b.binders, hv))          # hints cover a prefix of the binders
-                    rest = b.binders[len(hv):]              # auxiliary constants: existential
-                    body = z3.And(z3.substitute(b.cond, *sub), z3.substitute(ev, *sub) == v)
-                    alts.append(z3.Exists(rest, body) if rest else body)
-                elif len(b.binders) == 1 and z3.eq(ev, b.binders[0]):
-                    alts.append(z3.substitute(b.cond, (b.binders[0], v)))
-                elif not b.binders:
-                    alts.append(z3.And(b.cond, ev == v))
+                hv = None
+                for h in hints:
+                    if key == h or key.startswith(h):
+                        hv = hints[h]
+                if hv is not None:
+                    if len(hv) != len(news):
+                        raise Unsupported("witness for %s has %d terms, bag %s has %d binders"
+                                          % (self.short(), len(hv), key, len(news)))
+                    sub = list(zip(news, hv))
+                    alts.append(z3.And(z3.substitute(cond, *sub), z3.substitute(ev, *sub) == v))
+                    defs_all.append(z3.substitute(defs, *sub))
+                elif len(news) == 1 and z3.eq(ev, news[0]):
+                    sub = [(news[0], v)]
+                    alts.append(z3.substitute(cond, *sub))
+                    defs_all.append(z3.substitute(defs, *sub))
+                elif not news:
+                    alts.append(z3.And(cond, ev == v))
+                    defs_all.append(defs)
                 else:
-                    alts.append(z3.Exists(b.binders, z3.And(b.cond, ev == v)))
-            # path-level: under this path's local condition, member => yielded by one of its sites
-            disj.append((s, lc, z3.Or(*alts) if alts else z3.BoolVal(False)))
-        for i, (s, lc, alt) in enumerate(disj):
-            # assumptions: facts + precondition part + local cond of this path (without binder-specific conds)
-            assum = s.assumptions()
-            obls.append(Obligation("yields.complete/path%d" % i, assum, z3.Implies(mem, alt), info={"path": s.trace}))
+                    alts.append(z3.Exists(news, z3.And(cond, ev == v)))
+            goal = z3.Implies(mem, z3.Or(*alts) if alts else z3.BoolVal(False))
+            obls.append(Obligation("yields.complete/path%d" % i, s.assumptions() + defs_all, goal,
+                                   info={"path": s.trace}))
         if self.yields_nodup:
             k = 0
             for (s, lc, bags) in all_bags:
@@ -402,14 +402,16 @@ class Contract:
                     for j, b2 in enumerate(bags):
                         if j < i:
                             continue
-                        n1, c1_, e1 = b1.instantiate("d1")
-                        n2, c2_, e2 = b2.instantiate("d2")
-                        same = z3.And([x == y for x, y in zip(n1, n2)]) if (i == j and n1) else z3.BoolVal(i == j and not n1)
+                        n1, c1_, e1, d1 = b1.instantiate("d1")
+                        n2, c2_, e2, d2 = b2.instantiate("d2")
                         if i == j and not n1:
                             continue
-                        goal = z3.Implies(to_val(e1) == to_val(e2), same) if i == j else to_val(e1) != to_val(e2)
-                        assum = s.assumptions() + [c1_, c2_]
-                        obls.append(Obligation("yields.nodup/site%d" % k, assum, goal, info={"path": s.trace}))
+                        if i == j:
+                            goal = z3.Implies(to_val(e1) == to_val(e2), z3.And([x == y for x, y in zip(n1, n2)]))
+                        else:
+                            goal = to_val(e1) != to_val(e2)
+                        obls.append(Obligation("yields.nodup/site%d" % k, s.assumptions() + [d1, d2, c1_, c2_], goal,
+                                               info={"path": s.trace}))
                         k += 1
 
 
